@@ -2,36 +2,37 @@ import Mrpro.Model.DcfLayout
 /-! Proofs about the decomposition of `DcfData.from_traj_voronoi` (all 512 layouts, by kernel evaluation). -/
 namespace M.DcfLayout
 
-/-- every direction with an extent enters the product at least once, none without -/
-theorem count_pos_iff : ∀ a b c d e f g h i : Bool, ∀ j : Fin 3,
-    (0 < count (ofFlags a b c d e f g h i) j.val) = ((List.range 3).any (fun dd => varies (ofFlags a b c d e f g h i) j.val dd) = true) := by
+/-- every direction with an extent enters the product exactly once, none without -/
+theorem count_eq : ∀ a b c d e f g h i : Bool, ∀ j : Fin 3,
+    count (ofFlags a b c d e f g h i) j.val = (if (List.range 3).any (fun dd => varies (ofFlags a b c d e f g h i) j.val dd) then 1 else 0) := by
   decide +kernel
 
-/-- the exponent of the code is the sum of the multiplicities -/
-theorem degree_eq_sum : ∀ a b c d e f g h i : Bool,
-    degree (ofFlags a b c d e f g h i) = count (ofFlags a b c d e f g h i) 0 + count (ofFlags a b c d e f g h i) 1 + count (ofFlags a b c d e f g h i) 2 := by
+/-- **the weights have the degree of a cell volume for every layout** -/
+theorem degree_eq_dEnc : ∀ a b c d e f g h i : Bool,
+    degree (ofFlags a b c d e f g h i) = dEnc (ofFlags a b c d e f g h i) := by
   decide +kernel
 
-/-- **the weights have the degree of a cell volume exactly for the layouts in which no direction is counted twice** -/
-theorem degree_eq_dEnc_iff : ∀ a b c d e f g h i : Bool,
-    (degree (ofFlags a b c d e f g h i) = dEnc (ofFlags a b c d e f g h i)) ↔ wellFormed (ofFlags a b c d e f g h i) = true := by
+/-- the shipped decomposition had the right degree exactly for the layouts in which it counted no direction twice, and never a
+smaller one -/
+theorem degreeShipped_eq_dEnc_iff : ∀ a b c d e f g h i : Bool,
+    (degreeShipped (ofFlags a b c d e f g h i) = dEnc (ofFlags a b c d e f g h i)) ↔ wellFormedShipped (ofFlags a b c d e f g h i) = true := by
+  decide +kernel
+theorem dEnc_le_degreeShipped : ∀ a b c d e f g h i : Bool, dEnc (ofFlags a b c d e f g h i) ≤ degreeShipped (ofFlags a b c d e f g h i) := by
   decide +kernel
 
-/-- in general the code's exponent is never too small -/
-theorem dEnc_le_degree : ∀ a b c d e f g h i : Bool, dEnc (ofFlags a b c d e f g h i) ≤ degree (ofFlags a b c d e f g h i) := by
+/-- where the shipped decomposition was right, the repaired one is the same decomposition: same joint set, same directions with a
+1-D factor -/
+theorem repaired_agrees_where_shipped_was_right : ∀ a b c d e f g h i : Bool,
+    wellFormedShipped (ofFlags a b c d e f g h i) = true →
+      degree (ofFlags a b c d e f g h i) = degreeShipped (ofFlags a b c d e f g h i)
+      ∧ ∀ j : Fin 3, count (ofFlags a b c d e f g h i) j.val = countShipped (ofFlags a b c d e f g h i) j.val := by
   decide +kernel
 
-/-- a dense trajectory (every direction with an extent varies along every dimension that is used at all) is well formed, and so
-are the separable layouts (every direction along its own dimensions only, one dimension each) -/
-theorem dense_wellFormed : wellFormed (ofFlags true true true true true true true true true) = true
-    ∧ wellFormed (ofFlags true false false false true false false false true) = true
-    ∧ wellFormed (ofFlags false false false false true true false true true) = true := by decide +kernel
-
-/-- witnesses of the known finding: a direction alone along one dimension and coupled along another (kz along k2, ky along
-(k1,k0), kx along (k2,k0)) has exponent 4 instead of 3; a direction alone along two dimensions has exponent 2 instead of 1 -/
-theorem double_counted_witness :
-    degree (ofFlags true false false false true true true false true) = 4 ∧ dEnc (ofFlags true false false false true true true false true) = 3
-    ∧ degree (ofFlags true false true false false false false false false) = 2 ∧ dEnc (ofFlags true false true false false false false false false) = 1 := by
+/-- witnesses of the repaired defect: a direction alone along one dimension and coupled along another (kz along k2, ky along
+(k1,k0), kx along (k2,k0)) had exponent 4 instead of 3; a direction alone along two dimensions had exponent 2 instead of 1 -/
+theorem shipped_double_counted_witness :
+    degreeShipped (ofFlags true false false false true true true false true) = 4 ∧ dEnc (ofFlags true false false false true true true false true) = 3
+    ∧ degreeShipped (ofFlags true false true false false false false false false) = 2 ∧ dEnc (ofFlags true false true false false false false false false) = 1 := by
   decide +kernel
 
 end M.DcfLayout
